@@ -72,6 +72,26 @@ pub async fn wt_read_to_end(r: &mut RecvStream, rbuf: usize) -> (Vec<u8>, String
             }
         }
     }
+    if rbuf == 19 {
+        // this buffer size follows a read plan that contains reads into an empty slice: they
+        // return 0 bytes and say nothing about the end of the stream
+        let plan = [512usize, 1, 0, 300, 0, 4096];
+        let mut big = vec![0u8; 4096];
+        let mut i = 0usize;
+        loop {
+            let want = plan[i % plan.len()];
+            i += 1;
+            match bounded(r.read(&mut big[..want])).await {
+                None => return (out, "timeout".into()),
+                Some(Ok(Some(k))) => out.extend_from_slice(&big[..k]),
+                Some(Ok(None)) => return (out, "eos".into()),
+                Some(Err(e)) => return (out, canon::read_err(&e)),
+            }
+            if i > 4_000_000 {
+                return (out, "no_progress".into());
+            }
+        }
+    }
     if rbuf == 17 {
         // this buffer size reads 40 000-byte records with `read_exact`: one call spans several
         // arrivals; the last record ends early with the count of bytes that are valid
@@ -1207,7 +1227,7 @@ fn gen_stream_rt(
     if len <= 70_000 {
         wchunks.push(7);
     }
-    let mut rbufs = vec![13usize, 17, 4096, 65536];
+    let mut rbufs = vec![13usize, 17, 19, 4096, 65536];
     if len <= 2000 {
         rbufs.push(1);
     }
@@ -1237,7 +1257,7 @@ fn gen_stream_rt(
     const OPS: usize = 400_000;
     loop {
         let w_ops = if wchunk == 0 { 0 } else { len * n / wchunk };
-        let r_ops = len * n / if rbuf == 17 { 40_000 } else { rbuf };
+        let r_ops = len * n / if rbuf == 17 { 40_000 } else if rbuf == 19 { 800 } else { rbuf };
         if w_ops <= OPS && r_ops <= OPS {
             break;
         }
@@ -1282,6 +1302,16 @@ fn gen_c01(thorough: bool, rng: &mut Rng, emit: &mut dyn FnMut(&str, Vec<String>
             gen_stream_rt(rng, emit, role, len, n_choices);
         }
         if round == 0 {
+            // read plans with empty reads in them
+            for role in ROLES {
+                for len in [0usize, 513, 10_000, 300_000] {
+                    let rt = *rng.pick(&RTS);
+                    emit(
+                        "stream.rt",
+                        vec![s(rt), s(role), s(len), s(0), s(19), s(1), s(rng.below(1_000_000))],
+                    );
+                }
+            }
             // `read_exact` records that span several arrivals
             for role in ROLES {
                 for (len, wchunk) in [(100_000usize, 1000usize), (1_000_000, 65536), (40_000, 7000), (39_999, 0)] {
